@@ -243,6 +243,12 @@ func genAgg(seed uint64, tier string, emphasis int) *plan.Plan {
 			pl.Ops = append(pl.Ops, plan.Op{K: "query"})
 		}
 	}
+	if r.IntN(5) == 0 {
+		// records through the built-in worker pool, workers interleaved by the scheduler
+		pl.Cfg["pool"] = 1
+		genSchedule(r, pl, 6, 3000)
+		return pl
+	}
 	genSchedule(r, pl, 0, 0)
 	return pl
 }
